@@ -169,6 +169,17 @@ impl bpaf::__verif::World for Delegate {
         })
     }
 
+    fn vars_os(&mut self) -> Vec<(OsString, OsString)> {
+        with(|s| {
+            // enumerating the environment reads every variable, declared or not
+            s.env_reads.push((b"*".to_vec(), true));
+            s.env
+                .iter()
+                .map(|(k, v)| (OsString::from_vec(k.clone()), OsString::from_vec(v.clone())))
+                .collect()
+        })
+    }
+
     fn args_os(&mut self) -> Vec<OsString> {
         with(|s| {
             s.args_reads += 1;
@@ -270,6 +281,18 @@ pub fn real_env_init(names: &[&str]) {
     for n in names {
         std::env::set_var(n, "7");
     }
+}
+
+/// flip the worker's current directory between two places that exist everywhere; like the
+/// environment canaries this makes a dependence on ambient process state observable
+pub fn cwd_flip() {
+    let here = std::env::current_dir().ok();
+    let target = if here.as_deref() == Some(std::path::Path::new("/")) {
+        "/tmp"
+    } else {
+        "/"
+    };
+    let _ = std::env::set_current_dir(target);
 }
 
 /// flip the real variables: set ones are removed, unset ones appear
